@@ -433,6 +433,11 @@ func (vc *VC) havoc(objs []types.Object, st *State, extra []string, pos token.Po
 		if si := vc.ss.info[ot.Sort]; si != nil && si.Kind == "ptr" && vc.loopDirect != nil && !vc.loopDirect[o] {
 			vc.assume(tBool(true), Term{fmt.Sprintf("(= ((_ is ref.%s) %s) ((_ is ref.%s) %s))", ot.Sort, nv.S, ot.Sort, ot.S), SBool, nil})
 		}
+		// a map that is only written through (m[k] = v, delete) and never
+		// reassigned stays the map it was: non-nil if it was non-nil
+		if si := vc.ss.info[ot.Sort]; si != nil && si.Kind == "map" && vc.loopDirect != nil && !vc.loopDirect[o] {
+			vc.assume(tBool(true), Term{fmt.Sprintf("(= (isnil.%s %s) (isnil.%s %s))", ot.Sort, nv.S, ot.Sort, ot.S), SBool, nil})
+		}
 		st.vars[o] = nv
 	}
 	for _, name := range extra {
